@@ -88,7 +88,7 @@ Definition ex_val : gv :=
 Example C02_ex_hyp : documented ex_ty = true /\ covered ex_ty = true /\ has_type ex_ty ex_val = true.
 Proof. repeat split; vm_compute; reflexivity. Qed.
 Example C02_ex_roundtrip : exists bs,
-  marshal File true [114] ex_ty ex_val = MOk bs /\ lenN bs = 105 /\
+  marshal File true [114] ex_ty ex_val = MOk bs /\ lenN bs = 95 /\
   unmarshal File ex_ty bs = DOk [114] (canon ex_ty ex_val) [] /\
   canon ex_ty ex_val =
     GvStruct [ GvInt (-128); GvInt 0; GvStr []; GvPtr (Some (GvStruct [GvF32 0; GvStr []])); GvList [GvInt 255; GvInt 0];
@@ -96,7 +96,8 @@ Example C02_ex_roundtrip : exists bs,
                GvMap [([98], GvPtr (Some (GvBool true))); ([97], GvPtr (Some (GvBool false)))];
                GvRaw (Some (TList 8 [TString [104; 105]])); GvDyn (Some (TList 0 [])) ].
 Proof. eexists. repeat split; vm_compute; reflexivity. Qed.
-Example C02_ex_carrier : wf ex_tree /\ dyn_exact ex_tree = false /\ dyn_exact (dyn_norm ex_tree) = true.
+Definition ex_doc : tag := TCompound [([97], TList 3 []); ([98], TList 8 [TString [104]]); ([], TLongArray [(-1)%Z])].
+Example C02_ex_carrier : wf ex_doc /\ dyn_exact ex_doc = false /\ dyn_exact (dyn_norm ex_doc) = true /\ wf (dyn_norm ex_doc).
 Proof. repeat split; vm_compute; reflexivity. Qed.
 
 Print Assumptions C02_parse.
